@@ -231,10 +231,11 @@ fn rogue_answers_strategy() -> impl Strategy<Value = Case> {
 }
 
 pub fn rogue_mode(seed: u64, slot: usize) -> u8 {
-    ((seed >> (10 + 3 * slot)) % 7) as u8
+    ((seed >> (10 + 3 * slot)) % 9) as u8
 }
 
-fn rogue_reply(seed: u64, slot: usize) -> RawReply {
+fn rogue_reply(seed: u64, slot: usize, asker: (PeerId, Multiaddr), own: (PeerId, Multiaddr)) -> RawReply {
+    use litep2p::protocol::libp2p::kademlia::verif::{ConnectionType, KademliaMessage, KademliaPeer};
     use crate::common::uvarint;
     let framed = |body: Vec<u8>| {
         let mut v = uvarint(body.len() as u64);
@@ -249,7 +250,29 @@ fn rogue_reply(seed: u64, slot: usize) -> RawReply {
         3 => RawReply { read_first: true, chunks: vec![framed(reply)], hold_ms: 50 },
         4 => RawReply { read_first: true, chunks: vec![vec![0xff, 0xff, 0xff, 0x7f], vec![0u8; 64]], hold_ms: 2500 },
         5 => RawReply { read_first: true, chunks: vec![{ let mut v = uvarint(reply.len() as u64); v.extend_from_slice(&reply[..reply.len() / 2]); v }], hold_ms: 2500 },
-        _ => RawReply { read_first: true, chunks: vec![framed(reply.clone()), framed(reply), vec![0x03, 0x01]], hold_ms: 50 },
+        6 => RawReply { read_first: true, chunks: vec![framed(reply.clone()), framed(reply), vec![0x03, 0x01]], hold_ms: 50 },
+        // a well-formed FIND_NODE reply naming the asker itself, the rogue itself (twice) and a peer nobody listens as
+        7 => {
+            let ghost = peer_from_seed(seed ^ 0x9057 ^ slot as u64);
+            let ghost_addr = Multiaddr::empty().with(Protocol::Ip4([127, 0, 0, 1].into())).with(Protocol::Tcp(1)).with(Protocol::P2p(ghost.into()));
+            let peers = vec![
+                KademliaPeer::new(asker.0, vec![asker.1.clone()], ConnectionType::Connected),
+                KademliaPeer::new(own.0, vec![own.1.clone()], ConnectionType::Connected),
+                KademliaPeer::new(own.0, vec![own.1.clone()], ConnectionType::CanConnect),
+                KademliaPeer::new(ghost, vec![ghost_addr], ConnectionType::CanConnect),
+            ];
+            RawReply { read_first: true, chunks: vec![framed(KademliaMessage::find_node_response(key_bytes(0), peers).to_vec())], hold_ms: 50 }
+        }
+        // a well-formed FIND_NODE reply with 45 peers (more than any replication factor), none of them reachable
+        _ => {
+            let peers: Vec<KademliaPeer> = (0..45u64)
+                .map(|k| {
+                    let g = peer_from_seed(seed ^ 0xbeef ^ (k << 8) ^ slot as u64);
+                    KademliaPeer::new(g, vec![Multiaddr::empty().with(Protocol::Ip4([127, 0, 0, 1].into())).with(Protocol::Tcp(1)).with(Protocol::P2p(g.into()))], ConnectionType::CanConnect)
+                })
+                .collect();
+            RawReply { read_first: true, chunks: vec![framed(KademliaMessage::find_node_response(key_bytes(1), peers).to_vec())], hold_ms: 50 }
+        }
     }
 }
 
@@ -338,7 +361,7 @@ fn run_case(c: &Case, deadline: Duration, avoid_overcommit: bool) -> CaseResult 
                 )
                 .map_err(|e| CaseFail::new("C16/harness-node-start-failed", e))?;
                 if matches!(kind, Kind::Rogue) {
-                    let _ = node.probes[0].send(ProbeCmd::SetReply(Some(rogue_reply(c.seed, i))));
+                    let _ = node.probes[0].send(ProbeCmd::SetReply(Some(rogue_reply(c.seed, i, (q.peer, full_address(&q)), (node.peer, full_address(&node))))));
                 }
                 slot_peer.push(node.peer);
                 slot_addr.push(full_address(&node));
